@@ -226,11 +226,72 @@ def c19_cases(res):
     return cases
 
 
+def trace_jobs(prop, tier, seed):
+    """Executions recorded for trace validation against Build.tla (Impl layer): W1, both threads call the
+    function for the first time (same or different argument classes), every single pre-emption and every
+    A-to-a / B-to-b double pre-emption at hook granularity, sampled ones at line granularity; for C18 a
+    fault injected at each of the leading thread's build hooks, alone and with a second thread."""
+    thorough = tier == "thorough"
+    w, probes = W1()
+    a, b = probes[0], probes[1]
+    jobs = []
+    for name, th in {"same": {"A": a, "B": a}, "diff": {"A": a, "B": b}, "rev": {"A": b, "B": a}}.items():
+        base = {"world": w, "threads": th, "after": [a, b]}
+        if prop == "C19":
+            jobs.append(dict(base, id=f"TB-{name}-hook1", granularity="hook", switches="sweep1"))
+            jobs.append(dict(base, id=f"TB-{name}-hookab", granularity="hook", switches="sweepab",
+                             limit=(40 if not thorough else None), offset=seed))
+            for sh in range(2 if not thorough else 8):
+                jobs.append(dict(base, id=f"TB-{name}-line{sh}", granularity="line", switches="sweep1",
+                                 limit=(15 if not thorough else 300), offset=seed + 13 * sh))
+                jobs.append(dict(base, id=f"TB-{name}-lineab{sh}", granularity="line", switches="sweepab",
+                                 limit=(15 if not thorough else 600), offset=seed + 29 * sh))
+        else:
+            faults = [{"thread": "A", "n": n} for n in range(1, 10)]
+            jobs.append(dict(base, id=f"TB-{name}-fault-hook1", granularity="hook", switches="sweep1", faults=faults,
+                             limit=(6 if not thorough else None), offset=seed))
+            jobs.append(dict(base, id=f"TB-{name}-faultB-hook1", granularity="hook", switches="sweep1",
+                             faults=[{"thread": "B", "n": n} for n in (1, 3, 5, 8)], limit=(4 if not thorough else None), offset=seed + 1))
+            if thorough:
+                jobs.append(dict(base, id=f"TB-{name}-fault-line", granularity="line", switches="sweep1", faults=faults, limit=60, offset=seed))
+    return jobs
+
+
+def validate_build_traces(rep, prop, tier, seed):
+    """C->S for the Impl layer of C18 / C19: recorded executions must be behaviours of Build.tla."""
+    res = pool.run(workers.build_trace_cases, trace_jobs(prop, tier, seed), chunks_per_proc=4)
+    bugs = [c for c in res if "skip" in c]
+    if bugs:
+        rep.machinery_failure("harness error (build traces): " + bugs[0]["skip"])
+    res = [c for c in res if "skip" not in c]
+    if not res:
+        return
+    cases = [{"id": c["id"], "events": c["events"]} for c in res]
+    v, r = tlc.judge("Trace_Build", cases, workers=1, jvm=("-Dtlc2.tool.impl.Tool.cdot=true",))
+    rep.add_tlc(r, "trace validation Trace_Build (recorded build executions are behaviours of Build.tla)")
+    full = {c["id"]: c for c in res}
+    bad = [(cid, x) for cid, x in v.items() if x["clause"]]
+    rep.extra["build_traces_validated"] = len(v)
+    rep.extra["build_traces_rejected"] = len(bad)
+    rep.extra["build_trace_events"] = sum(len(c["events"]) for c in res)
+    rep.extra["build_traces_with_fault_struck"] = len([c for c in res if any(e["ev"] == "failed" for e in c["events"])])
+    rep.extra["build_traces_second_thread_waited"] = len([
+        c for c in res
+        if any(e["ev"] == "start" and e["t"] == 2 and any(f["ev"] == "locked" and f["t"] == 1 for f in c["events"][:j])
+               and not any(f["ev"] in ("end", "failed") and f["t"] == 1 for f in c["events"][:j]) for j, e in enumerate(c["events"]))])
+    if bad:
+        cid, x = bad[0]
+        c = full[cid]
+        k = static.rejections(x)[0]["step"]
+        rep.spec_drift(f"Build.tla does not explain event {k} of {cid} (schedule {c['schedule']}, fault {c['fault']}): "
+                       f"{json.dumps(c['events'][: k])[-600:]} [{len(bad)} of {len(v)} traces]")
+
+
 def run(prop, tier, seed, replay=None):
     level = "fault_enumeration" if prop == "C18" else "model_checking"
     rep = Report(prop, tier, seed, level)
     thorough = tier == "thorough"
-    cfgs = ["MC_Build_c18.cfg"] if prop == "C18" else ["MC_Build_c19.cfg", "MC_Build_c19_3.cfg"]
+    cfgs = ["MC_Build_c18.cfg", "MC_Build_c1819.cfg"] if prop == "C18" else ["MC_Build_c19.cfg", "MC_Build_c19_3.cfg", "MC_Build_c1819.cfg"]
     for cfg in cfgs:
         mc = tlc.run_tlc("Build", cfg, timeout=1800)
         rep.add_tlc(mc, f"model check Build.tla {cfg} (AnswersCorrect, EachAsAlone, FinalStateCorrect, RecoversAfterRemoval)")
@@ -281,6 +342,7 @@ def run(prop, tier, seed, replay=None):
         rep.sample({"id": c["id"], "job": c.get("job"), "schedule": c.get("schedule"),
                     "steps": [{k: v for k, v in s.items() if k not in ("live",)} for s in c["steps"][:4]]})
     rep.extra["points_per_scenario"] = pts
+    validate_build_traces(rep, prop, tier, seed)
     if prop == "C18":
         rep.rule = (
             "3 worlds x {first build, rebuild after a change, cache-miss resolution} x fault sources: invalid method (misuse of call_next, "
